@@ -8,7 +8,8 @@ from ..mir import T
 
 
 def run(res, facts, entries, protos):
-    key_split(res, facts)
+    if not getattr(res, "sem_ok", False):
+        key_split(res, facts)      # the constants of the key split are part of "producer == specification" (C08.S1) when that was decided
     try:
         from . import c08_fpai
         c08_fpai.run(res, facts)
